@@ -1,6 +1,7 @@
 """C17 - blacklist-aware genome tiling is an exact partition with contained fetch windows.
 
-K only (no translator): coq/Model/C17.v is a hand transcription of fill_range, trim_rangelist,
+T + K: the expressions the proofs hinge on are regenerated from the source (coq/Gen/GenTiling.v, see regen_tiling below) and
+used by the model; the control flow of coq/Model/C17.v is a hand transcription (skeleton-pinned) of fill_range, trim_rangelist,
 range_contains_overlap, _merge_overlapping_ranges, merge_overlapping_ranges, blacklisted_binning
 (bamBinCounts.py) and bp_chunked (utils/binning.py); every function is run directly on the real code
 (tools/impl_c17.py) and compared with the extracted model, exhaustively on small scopes and on random
@@ -16,6 +17,340 @@ WORKERS = int(os.environ.get('VERIF_C17_WORKERS', '6'))
 CORPUS = os.path.join(fw.VERIF, 'corpus', 'C17')
 FN = {0: 'fill_range', 1: 'trim_rangelist', 2: 'range_contains_overlap', 3: '_merge_overlapping_ranges',
       4: 'merge_overlapping_ranges', 5: 'blacklisted_binning', 6: 'bp_chunked'}
+
+
+# ============================================================================ T: translator tie
+# Regenerates coq/Gen/GenTiling.v from the working tree of SCMO_REPO on every run: the expressions the proofs
+# hinge on (comparisons, step / clip / merge expressions, the sentinel, call arguments) are translated by
+# py2coq.ExprTranslator; everything else of the seven functions (control flow, statement order, names that are
+# assigned) is pinned by a SKELETON = ast.unparse of the function with the translated expressions replaced by
+# HOLE and the docstring removed.  Any other shape is refused (fail closed).  Model.C17 uses the generated
+# definitions; Proofs.C17 connects them to the arithmetic facts by small shape lemmas (lia).
+import ast, hashlib, py2coq
+from py2coq import Untranslatable
+
+BINCOUNTS = 'singlecellmultiomics/bamProcessing/bamBinCounts.py'
+BINNING = 'singlecellmultiomics/utils/binning.py'
+GEN = os.path.join(fw.COQ, 'Gen', 'GenTiling.v')
+
+SKELETON = {
+    'fill_range': """def fill_range(start, end, step):
+    e = HOLE
+    for s in range(HOLE):
+        e = HOLE
+        if HOLE:
+            e = HOLE
+            break
+        yield HOLE
+    if HOLE:
+        yield HOLE""",
+    'trim_rangelist': """def trim_rangelist(rangelist, start, end):
+    for s, e in rangelist:
+        overlap = HOLE
+        if not overlap:
+            continue
+        yield HOLE""",
+    'range_contains_overlap': """def range_contains_overlap(clist):
+    clist = sorted(clist)
+    if HOLE:
+        return False
+    for (start, end), (next_start, next_end) in windowed(clist, 2):
+        if HOLE:
+            return True
+    return False""",
+    '_merge_overlapping_ranges': """def _merge_overlapping_ranges(clist):
+    merged = False
+    for (start, end), (next_start, next_end) in windowed(clist, 2):
+        if merged:
+            merged = False
+            continue
+        if HOLE:
+            yield HOLE
+            merged = True
+        else:
+            yield HOLE
+    if not merged:
+        yield clist[-1]""",
+    'merge_overlapping_ranges': """def merge_overlapping_ranges(clist):
+    clist = sorted(clist)
+    while range_contains_overlap(clist):
+        clist = sorted(list(_merge_overlapping_ranges(clist)))
+    return clist""",
+    'blacklisted_binning': """def blacklisted_binning(start_coord: int, end_coord: int, bin_size: int, blacklist: list=None, fragment_size: int=None):
+    if blacklist is None:
+        blacklist = []
+    elif HOLE:
+        blacklist = merge_overlapping_ranges(blacklist)
+    current = HOLE
+    for i, (start, end) in enumerate(chain(trim_rangelist(blacklist, HOLE), [HOLE])):
+        if HOLE:
+            current = HOLE
+            continue
+        total_bins = len(list(fill_range(HOLE)))
+        if HOLE:
+            continue
+        if HOLE:
+            total_bins = HOLE
+        local_bin_size = HOLE
+        gap_start = HOLE
+        for pos_s, pos_e in fill_range(HOLE):
+            if fragment_size is None:
+                yield HOLE
+            else:
+                fs = HOLE
+                fe = HOLE
+                yield HOLE
+            current = pos_e
+        current = HOLE""",
+    'bp_chunked': """def bp_chunked(job_generator, bp_per_job):
+    bp_current = HOLE
+    current_tasks = []
+    for job in job_generator:
+        start, end = (job[1], job[2])
+        bp_current += HOLE
+        current_tasks.append(job)
+        if HOLE:
+            yield current_tasks
+            bp_current = HOLE
+            current_tasks = []
+    yield current_tasks""",
+}
+
+
+class _Gen:
+    """collects holes of one function: translates them and blanks them in the tree"""
+    def __init__(self, path, rel, name):
+        self.src = open(path).read()
+        self.rel, self.name = rel, name
+        self.fn = py2coq.find_function(ast.parse(self.src), name)
+        if not isinstance(self.fn, ast.FunctionDef):
+            raise Untranslatable('%s is not a function' % name)
+        b = self.fn.body
+        if b and isinstance(b[0], ast.Expr) and isinstance(b[0].value, ast.Constant) and isinstance(b[0].value.value, str):
+            self.fn.body = b[1:]
+        self.holes = {}
+        self.chunks, self.meta = [], []
+
+    def emit(self, coqname, params, node, kind, env=None, nodes=None):
+        """kind: 'z' | 'b' | 'any' (tuple) ; nodes: several expressions emitted as one tuple (call arguments)"""
+        tr = py2coq.ExprTranslator(env=env or {})
+        if nodes is not None:
+            body = '(%s)' % ', '.join(tr.z(n) for n in nodes)
+            seg = ', '.join(ast.get_source_segment(self.src, n) for n in nodes)
+            first, last = nodes[0], nodes[-1]
+            for n in nodes:
+                self.holes[id(n)] = True
+        else:
+            body = {'z': tr.z, 'b': tr.b, 'any': tr.any}[kind](node)
+            seg = ast.get_source_segment(self.src, node)
+            first = last = node
+            self.holes[id(node)] = True
+        sha = hashlib.sha256(seg.encode()).hexdigest()
+        self.chunks.append('(* source: %s line %d-%d sha256 %s\n   %s *)\nDefinition %s %s :=\n  %s.' % (
+            self.rel, first.lineno, last.end_lineno, sha, ' '.join(seg.split()).replace('*)', '* )'), coqname, params, body))
+        self.meta.append({'source': self.rel, 'lines': [first.lineno, last.end_lineno], 'sha256': sha, 'coq': coqname})
+
+    def emit_or(self, coqname, params, tests):
+        """disjunction of an initial boolean and the tests of `if t: overlap = True` statements"""
+        tr = py2coq.ExprTranslator()
+        body = '(' + ' || '.join(tr.b(n) for n in tests) + ')'
+        seg = ' || '.join(ast.get_source_segment(self.src, n) for n in tests)
+        sha = hashlib.sha256(seg.encode()).hexdigest()
+        self.chunks.append('(* source: %s line %d-%d sha256 %s\n   %s *)\nDefinition %s %s :=\n  %s.' % (
+            self.rel, tests[0].lineno, tests[-1].end_lineno, sha, ' '.join(seg.split()), coqname, params, body))
+        self.meta.append({'source': self.rel, 'lines': [tests[0].lineno, tests[-1].end_lineno], 'sha256': sha, 'coq': coqname})
+
+    def check_skeleton(self):
+        holes = self.holes
+
+        class H(ast.NodeTransformer):
+            def generic_visit(s, node):
+                for field, old in ast.iter_fields(node):
+                    if isinstance(old, list):
+                        new, prev_hole = [], False
+                        for v in old:
+                            if isinstance(v, ast.AST):
+                                if id(v) in holes:
+                                    if not prev_hole:      # adjacent holes (call arguments) collapse into one
+                                        new.append(ast.Name(id='HOLE', ctx=ast.Load()))
+                                    prev_hole = True
+                                    continue
+                                prev_hole = False
+                                v = s.visit(v)
+                            new.append(v)
+                        old[:] = new
+                    elif isinstance(old, ast.AST):
+                        if id(old) in holes:
+                            setattr(node, field, ast.Name(id='HOLE', ctx=ast.Load()))
+                        else:
+                            setattr(node, field, s.visit(old))
+                return node
+        H().visit(self.fn)
+        got = ast.unparse(ast.fix_missing_locations(self.fn))
+        if got != SKELETON[self.name]:
+            import difflib
+            d = '\n'.join(l for l in difflib.unified_diff(SKELETON[self.name].splitlines(), got.splitlines(), lineterm='', n=0)
+                          if not l.startswith(('---', '+++', '@@')))
+            raise Untranslatable('%s: control-flow skeleton changed (not a shape the translator knows):\n%s' % (self.name, d))
+
+
+def _nav(f):
+    def g(*a):
+        try:
+            return f(*a)
+        except Untranslatable:
+            raise
+        except (AssertionError, IndexError, AttributeError, KeyError, TypeError, ValueError) as e:
+            raise Untranslatable('%s: the statement layout of the function differs from the shape the translator knows '
+                                 '(%s: %s)' % (f.__name__, type(e).__name__, e))
+    return g
+
+
+def _yield_value(st):
+    assert isinstance(st, ast.Expr) and isinstance(st.value, ast.Yield) and st.value.value is not None
+    return st.value.value
+
+
+@_nav
+def gen_fill_range(p):
+    G = _Gen(p, BINCOUNTS, 'fill_range')
+    b = G.fn.body
+    assert isinstance(b[0], ast.Assign) and isinstance(b[1], ast.For) and isinstance(b[2], ast.If)
+    G.emit('g_fr_init', '(start end_ step : Z)', b[0].value, 'z')
+    rng = b[1].iter
+    assert isinstance(rng, ast.Call) and rng.func.id == 'range' and len(rng.args) == 3 and not rng.keywords
+    G.emit('g_fr_range', '(start end_ step : Z)', None, None, nodes=rng.args)
+    lb = b[1].body
+    G.emit('g_fr_e', '(start end_ step s e : Z)', lb[0].value, 'z')
+    G.emit('g_fr_over', '(start end_ step s e : Z)', lb[1].test, 'b')
+    G.emit('g_fr_back', '(start end_ step s e : Z)', lb[1].body[0].value, 'z')
+    G.emit('g_fr_yield', '(start end_ step s e : Z)', _yield_value(lb[2]), 'any')
+    G.emit('g_fr_tail', '(start end_ step e : Z)', b[2].test, 'b')
+    G.emit('g_fr_last', '(start end_ step e : Z)', _yield_value(b[2].body[0]), 'any')
+    G.check_skeleton()
+    return G
+
+
+@_nav
+def gen_trim(p):
+    G = _Gen(p, BINCOUNTS, 'trim_rangelist')
+    loop = G.fn.body[0]
+    assert isinstance(loop, ast.For)
+    lb = loop.body
+    assert isinstance(lb[0], ast.Assign) and ast.unparse(lb[0].targets[0]) == 'overlap'
+    tests = [lb[0].value]
+    k = 1
+    while k < len(lb) and isinstance(lb[k], ast.If) and not lb[k].orelse and len(lb[k].body) == 1 \
+            and ast.unparse(lb[k].body[0]) == 'overlap = True':
+        tests.append(lb[k].test)
+        k += 1
+    G.emit_or('g_trim_keep', '(start end_ s e : Z)', tests)
+    G.holes[id(lb[0].value)] = True
+    del lb[1:k]                      # the `if t: overlap = True` statements are folded into g_trim_keep
+    G.emit('g_trim_clip', '(start end_ s e : Z)', _yield_value(lb[2]), 'any')
+    G.check_skeleton()
+    return G
+
+
+@_nav
+def gen_rco(p):
+    G = _Gen(p, BINCOUNTS, 'range_contains_overlap')
+    b = G.fn.body
+    G.emit('g_rco_short', '(n : Z)', b[1].test, 'b', env={'len(clist)': 'n'})
+    G.emit('g_rco_ov', '(start end_ next_start next_end : Z)', b[2].body[0].test, 'b')
+    G.check_skeleton()
+    return G
+
+
+@_nav
+def gen_mpass(p):
+    G = _Gen(p, BINCOUNTS, '_merge_overlapping_ranges')
+    st = G.fn.body[1].body[1]
+    assert isinstance(st, ast.If)
+    G.emit('g_mp_ov', '(start end_ next_start next_end : Z)', st.test, 'b')
+    G.emit('g_mp_merge', '(start end_ next_start next_end : Z)', _yield_value(st.body[0]), 'any')
+    G.emit('g_mp_keep', '(start end_ next_start next_end : Z)', _yield_value(st.orelse[0]), 'any')
+    G.check_skeleton()
+    return G
+
+
+@_nav
+def gen_merge(p):
+    G = _Gen(p, BINCOUNTS, 'merge_overlapping_ranges')
+    G.check_skeleton()
+    return G
+
+
+@_nav
+def gen_bb(p):
+    G = _Gen(p, BINCOUNTS, 'blacklisted_binning')
+    b = G.fn.body
+    G.emit('g_bb_need_merge', '(n : Z)', b[0].orelse[0].test, 'b', env={'len(blacklist)': 'n'})
+    G.emit('g_bb_cur0', '(start_coord end_coord : Z)', b[1].value, 'z')
+    loop = b[2]
+    ch = loop.iter.args[0]
+    trim_call, lst = ch.args
+    assert ast.unparse(trim_call.func) == 'trim_rangelist' and len(trim_call.args) == 3 and not trim_call.keywords
+    G.emit('g_bb_trim_args', '(start_coord end_coord : Z)', None, None, nodes=trim_call.args[1:])
+    assert isinstance(lst, ast.List) and len(lst.elts) == 1
+    G.emit('g_bb_sentinel', '(start_coord end_coord : Z)', lst.elts[0], 'any')
+    lb = loop.body
+    ctx = '(start_coord end_coord bin_size start end_ current : Z)'
+    G.emit('g_bb_skip', ctx, lb[0].test, 'b')
+    G.emit('g_bb_cur_skip', ctx, lb[0].body[0].value, 'z')
+    fr = lb[1].value.args[0].args[0]
+    assert ast.unparse(fr.func) == 'fill_range' and len(fr.args) == 3 and not fr.keywords
+    G.emit('g_bb_tb_args', ctx, None, None, nodes=fr.args)
+    G.emit('g_bb_tb_neg', '(total_bins : Z)', lb[2].test, 'b')
+    G.emit('g_bb_tb_zero', '(total_bins : Z)', lb[3].test, 'b')
+    G.emit('g_bb_tb_one', '(total_bins : Z)', lb[3].body[0].value, 'z')
+    ctx2 = '(start_coord end_coord bin_size start end_ current total_bins : Z)'
+    G.emit('g_bb_lbs', ctx2, lb[4].value, 'z')
+    G.emit('g_bb_gap_start', ctx2, lb[5].value, 'z')
+    inner = lb[6]
+    fr2 = inner.iter
+    assert ast.unparse(fr2.func) == 'fill_range' and len(fr2.args) == 3 and not fr2.keywords
+    G.emit('g_bb_fill_args', '(start_coord end_coord bin_size start end_ current total_bins local_bin_size : Z)', None, None,
+           nodes=fr2.args)
+    iff = inner.body[0]
+    # `current` is excluded on purpose: it is reassigned inside this loop
+    ctx3 = '(start_coord end_coord bin_size start end_ gap_start pos_s pos_e fragment_size : Z)'
+    G.emit('g_bb_yield2', '(start_coord end_coord bin_size start end_ gap_start pos_s pos_e : Z)', _yield_value(iff.body[0]), 'any')
+    G.emit('g_bb_fs', ctx3, iff.orelse[0].value, 'z')
+    G.emit('g_bb_fe', ctx3, iff.orelse[1].value, 'z')
+    G.emit('g_bb_yield4', '(pos_s pos_e fs fe : Z)', _yield_value(iff.orelse[2]), 'any')
+    G.emit('g_bb_cur_after', '(start_coord end_coord start end_ : Z)', lb[7].value, 'z')
+    G.check_skeleton()
+    return G
+
+
+@_nav
+def gen_bp(p):
+    G = _Gen(p, BINNING, 'bp_chunked')
+    b = G.fn.body
+    G.emit('g_bp_init', '(bp_per_job : Z)', b[0].value, 'z')
+    lb = b[2].body
+    assert isinstance(lb[1], ast.AugAssign) and isinstance(lb[1].op, ast.Add)
+    G.emit('g_bp_inc', '(start end_ : Z)', lb[1].value, 'z')
+    G.emit('g_bp_full', '(bp_current bp_per_job : Z)', lb[3].test, 'b')
+    G.emit('g_bp_reset', '(bp_per_job : Z)', lb[3].body[1].value, 'z')
+    G.check_skeleton()
+    return G
+
+
+def regen_tiling():
+    p1 = os.path.join(fw.REPO, BINCOUNTS)
+    p2 = os.path.join(fw.REPO, BINNING)
+    chunks, meta = [], []
+    for g, p in ((gen_fill_range, p1), (gen_trim, p1), (gen_rco, p1), (gen_mpass, p1), (gen_merge, p1), (gen_bb, p1),
+                 (gen_bp, p2)):
+        G = g(p)
+        chunks += G.chunks
+        meta += G.meta
+        meta.append({'source': G.rel, 'coq': 'skeleton of %s' % G.name,
+                     'sha256': hashlib.sha256(SKELETON[G.name].encode()).hexdigest()})
+    py2coq.write_gen(GEN, '', chunks)
+    return meta
 
 
 # ============================================================================ specification in Python
@@ -499,9 +834,13 @@ class Prop(fw.PropBase):
     ID = 'C17'
     PROPS = 'Props/C17.v'
     TRUSTED = [
-        'coq/Model/C17.v is a hand transcription (no translator) of fill_range, trim_rangelist, range_contains_overlap, '
-        '_merge_overlapping_ranges, merge_overlapping_ranges, blacklisted_binning and bp_chunked; tied to the source only by '
-        'the correspondence check (exhaustive small scopes + random); the model describes the code after fixes/C17-D21.patch (D21+D22), C17-D23.patch and C17-D31.patch (in /repo as b28cc73, cb8b50b, f481ccc)',
+        'T: the comparisons, step/clip/merge expressions, call arguments, the sentinel and the bp threshold test of fill_range, '
+        'trim_rangelist, range_contains_overlap, _merge_overlapping_ranges, blacklisted_binning and bp_chunked are regenerated from '
+        'the source into coq/Gen/GenTiling.v on every run (tools/c17.py regen_tiling + py2coq.ExprTranslator) and the model uses them; '
+        'the control flow around them in coq/Model/C17.v is a hand transcription, pinned by the translator\'s skeleton check '
+        '(ast.unparse of each function with the translated expressions blanked must equal the recorded skeleton, else the tie is '
+        'refused) and tied to the source by the correspondence check (exhaustive small scopes + random); trusted: the skeleton '
+        'strings, the reading of the holes by Model.C17, py2coq; /repo contains fixes C17-D21 (D21+D22), C17-D23, C17-D31',
         'int((start - current) / total_bins) is modelled as Z.quot: assumes the float quotient of two integers below 2^53 '
         'truncates to the exact quotient (sampled up to 2^44); sorted() on tuples = insertion sort by (start, end)',
         'modelled not verified: reading the BED blacklist / contig lengths (get_bins_from_bed_dict, pysam header) in '
@@ -512,6 +851,19 @@ class Prop(fw.PropBase):
     ]
     ASSUMPTIONS = ['bin_size > 0, region start <= end, every blacklist interval has start <= end, fragment_size >= 0 or None '
                    '(outside this precondition model and code are still compared, the theorem says nothing)']
+
+    # ---------------------------------------------------------------- T
+    def regen(self):
+        try:
+            return regen_tiling()
+        except BaseException:
+            # fail closed: never prove / run against definitions generated from another source
+            for ext in ('.v', '.vo', '.vos', '.vok', '.glob'):
+                try:
+                    os.remove(GEN[:-2] + ext)
+                except OSError:
+                    pass
+            raise
 
     # ---------------------------------------------------------------- K
     def plan(self):
